@@ -605,6 +605,50 @@ def check_c07(run):
             script.append({"op": "quiesce"})
         sessions.append({"id": 100000 + i, "kind": "updates", "min": mn, "max": mx, "model": rng.randint(1, 4),
                          "rules": V(1, tuple(names)), "gated": True, "checkv": True, "script": script})
+    # several management calls AT ONCE (each on its own goroutine, parked at the hooks inside the update lock), with
+    # requests; afterwards every query is asked and every instance probed: the outcome must be the one of SOME serial
+    # order of the calls, namely the order in which their hook events show them inside the lock
+    for i in range(80 if quick else 2500):
+        mn = rng.randint(1, 2)
+        mx = mn + rng.randint(1, 2)
+        ver = 1
+        script = []
+        q = 0
+        for b in range(rng.randint(1, 2)):
+            ups = []
+            for _ in range(rng.randint(2, 3)):
+                ver += 1
+                k = rng.choice(["full", "incrRepl", "incrNew", "incrNew", "incrMix", "remove", "remove", "badincr", "clear"] if b else
+                               ["full", "incrRepl", "incrNew", "incrNew", "incrMix", "remove", "remove", "badincr"])
+                if k == "full":
+                    ups.append({"kind": "full", "rules": V(ver, tuple(sorted(rng.sample(["r1", "r2", "r3", "r4"], rng.randint(1, 4))))), "names": []})
+                elif k == "incrRepl":
+                    ups.append({"kind": "incr", "rules": V(ver, tuple(sorted(rng.sample(["r1", "r2", "r3"], rng.randint(1, 2))))), "names": []})
+                elif k == "incrNew":
+                    ups.append({"kind": "incr", "rules": V(ver, (rng.choice(["r4", "r5", "r6"]),)), "names": []})
+                elif k == "incrMix":
+                    ups.append({"kind": "incr", "rules": V(ver, (rng.choice(["r1", "r2"]), rng.choice(["r5", "r6"]))), "names": []})
+                elif k == "remove":
+                    ups.append({"kind": "remove", "rules": [], "names": [rng.choice(["r1", "r2", "r3", "r4"])]})
+                elif k == "clear":
+                    ups.append({"kind": "clear", "rules": [], "names": []})
+                else:
+                    ups.append({"kind": "badincr", "rules": [], "names": []})
+            reqs = []
+            for _ in range(rng.randint(0, mx + 1)):
+                q += 1
+                m = rng.choice(["Execute", "ExecuteConcurrent", "ExecuteMixModel", "ExecuteDAGModel", "ExecuteSelectedRules", "emMulti"])
+                r = call_for(m, ["r1", "r2", "r3", "r4", "r5", "r6"], 0)
+                r.update(q=q, keys=[], fail="")
+                reqs.append(r)
+            script.append({"op": "updrace", "reqs": reqs, "updates": ups})
+            script.append({"op": "quiesce"})
+            script.append({"op": "query", "args": ["r1", "r2", "r3", "r4", "r5", "r6", "zz"]})
+            script.append(probe(q, mx, ["r1", "r2", "r3", "r4", "r5", "r6"], 0, rng))
+            q += mx
+            script.append({"op": "quiesce"})
+        sessions.append({"id": 200000 + i, "kind": "updates", "min": mn, "max": mx, "model": rng.randint(1, 4),
+                         "rules": V(1, ("r1", "r2", "r3")), "gated": rng.random() < 0.8, "checkv": True, "script": script})
     if getattr(run, "collect", None) is not None:
         run.collect["updates"] = sessions
         return 0
